@@ -10,5 +10,5 @@ CONSTANTS
   Prompt = TRUE
   KeepHist = TRUE
 VIEW View
-INVARIANTS TypeOK C17Cex FileAfterDrop GenNotAhead ClosedMeansGone Emit
+INVARIANTS TypeOK C17Cex FileAfterDrop GenNotAhead ClosedMeansGone SingleWriter Emit
 CHECK_DEADLOCK FALSE
